@@ -127,7 +127,8 @@ def _resolved(I, addr, epoch):
 
 def _ob_weights(op, pieces=1):
     def s(I):
-        b, X, v = c05.world(I)
+        # the latest weight snapshots are old (epoch 3), or somebody already acted in the current epoch (snapshots pending at E + 1)
+        b, X, v = c05.world(I, weights_at=[3, c05.E + 1][I.choose(2, 'weights_at')])
         # representation invariant: a user's weight is the sum of the weights of their open positions as filled
         # (alice holds one position filled in one piece, or -- pieces=2 -- created with p1 and expanded by pa-p1); the total covers it
         if pieces == 1:
@@ -148,12 +149,22 @@ def _ob_weights(op, pieces=1):
         wa0 = _resolved(I, 'alice', c05.E + 1)
         I.assume(smt.Eq(wa0, w_filled))
         T0 = _resolved(I, FM, c05.E + 1)
-        before = {u: _resolved(I, u, c05.E + 1) for u in ('alice', 'bob', 'carol')}
-        cur_before = {u: _resolved(I, u, c05.E) for u in ('alice', 'bob', 'carol', FM)}
+        USERS = ('alice', 'bob', 'carol', 'erin')
+        before = {u: _resolved(I, u, c05.E + 1) for u in USERS}
+        cur_before = {u: _resolved(I, u, c05.E) for u in USERS + (FM,)}
+        if pieces == 1:
+            # erin's weight is the sum of the weights of her two single-piece positions
+            wsum = 0
+            for part in (v['pe1'], v['pe2']):
+                wst2, wr2 = I.try_call('calculate_weight', [Ref([coin_v(LP1, part)], 0), 30 * DAY], CR)
+                if wst2 != 'ok' or not is_ok(wr2):
+                    raise Infeasible()
+                wsum = simp(wsum + wr2.f[0])
+            I.assume(smt.Eq(before['erin'], wsum))
         ch = Chain(I, CONTRACTS_FM)
         st, _ = c05.run(I, ch, b, op, v)
         I.observe('status', 'ok' if st == 'ok' else 'err')
-        for u in ('alice', 'bob', 'carol', FM, PMA):
+        for u in ('alice', 'bob', 'carol', 'erin', FM, PMA):
             for e in (c05.E, c05.E + 1):
                 snaps = dict(weights_of(I, u, LP1))
                 I.observe('snap:%s:%s:%d' % (u, LP1, e), snaps.get(e))
@@ -162,7 +173,7 @@ def _ob_weights(op, pieces=1):
             return
         I.cover('ok', c05.HINT)
         T1 = _resolved(I, FM, c05.E + 1)
-        after = {u: _resolved(I, u, c05.E + 1) for u in ('alice', 'bob', 'carol')}
+        after = {u: _resolved(I, u, c05.E + 1) for u in USERS}
         I.check('pool_manager_holds_no_weight', smt.Eq(_resolved(I, PMA, c05.E + 1), 0))
         du = sum((after[u] - before[u]) for u in after)
         if pieces == 2:
@@ -171,7 +182,7 @@ def _ob_weights(op, pieces=1):
             return
         I.check('total_moves_exactly_with_the_users', smt.Eq(T1 - T0, du))
         I.check('total_still_covers_the_users', T1 >= sum(after.values()))
-        for u in ('alice', 'bob', 'carol', FM):
+        for u in USERS + (FM,):
             if u == 'alice' and op in ('close_full', 'emergency_open'):
                 # a user who leaves an LP token entirely has the whole history cleared (reconcile_user_state); her rewards were
                 # claimed before closing, or are forfeited by an emergency exit (pinned by the suite) -- not asserted
@@ -187,6 +198,9 @@ def _ob_weights(op, pieces=1):
             amt = I.inputs['amount']
             s2, r2 = I.try_call('calculate_weight', [Ref([coin_v(LP1, amt)], 0), 30 * DAY], CR)
             I.check('new_position_adds_its_weight_from_next_epoch', smt.Eq(after['carol'], r2.f[0]))
+        if op == 'close_one_of_two':
+            s3, r3 = I.try_call('calculate_weight', [Ref([coin_v(LP1, v['pe2'])], 0), 30 * DAY], CR)
+            I.check('user_keeps_the_weight_of_her_remaining_open_position', smt.Eq(after['erin'], r3.f[0]))
         if op in ('close_full', 'emergency_open'):
             I.check('user_without_open_position_has_no_weight', smt.Eq(after['alice'], 0))
             snaps = dict(weights_of(I, 'alice', LP1))
